@@ -53,6 +53,8 @@ reg("C02",
       funcs=["parse_tls_encrypted"]),
     H("c02", "c02_plaintext_wiring", bounds="12-byte buffer, symbolic length, all bytes symbolic; content dispatcher stubbed",
       stubs=["parse_tls_record_with_header"], funcs=["parse_tls_plaintext"]),
+    H("c02", "c02_plaintext_handshake_6", bounds="handshake record, length 6 concrete, payload symbolic (message types and 24-bit lengths); 15 body parsers stubbed",
+      stubs=["15 parse_tls_handshake_msg_* body parsers (marker stubs)"], funcs=["parse_tls_plaintext", "parse_tls_message_handshake"], timeout=1200, mem=16),
     H("c02", "c02_plaintext_ccs_2", bounds="ChangeCipherSpec record, length 2 concrete, payload+version+2 trailing bytes symbolic", funcs=["parse_tls_plaintext", "parse_tls_record_with_header"]),
     H("c02", "c02_plaintext_alert_3", bounds="alert record, length 3 concrete, payload symbolic", funcs=["parse_tls_message_alert"]),
     H("c02", "c02_plaintext_appdata_2", bounds="application-data record, length 2 concrete, payload symbolic", funcs=["parse_tls_message_applicationdata"]),
@@ -321,13 +323,15 @@ reg("C11",
 # ------------------------------------------------------------------------------------------------ C12
 _CF = ["TlsCipherSuite::from_id", "CIPHERS (phf map generated by build.rs)"]
 reg("C12",
-    H("c12", "c12_lookup_any_id", bounds="id symbolic over all 65536 values through phf/SipHash; four lookup routes; derived sizes on the returned entry", timeout=900,
-      funcs=_CF + ["TryFrom<u16>", "TryFrom<TlsCipherSuiteID>", "TlsCipherSuiteID::get_ciphersuite", "enc_key_size", "enc_block_size", "mac_length"]),
+    H("c12", "c12_lookup_any_id", bounds="id symbolic over all 65536 values through phf/SipHash; from_id and TryFrom<u16>; derived sizes on the returned entry", timeout=900,
+      funcs=_CF + ["TryFrom<u16>", "enc_key_size", "enc_block_size", "mac_length"]),
+    H("c12", "c12_lookup_any_id_other_routes", bounds="id symbolic over all 65536 values; TryFrom<TlsCipherSuiteID> and TlsCipherSuiteID::get_ciphersuite", timeout=900,
+      funcs=_CF + ["TryFrom<TlsCipherSuiteID>", "TlsCipherSuiteID::get_ciphersuite"]),
     *[H("c12", "c12_rows_%d" % k, bounds="rows %d/8 of the table generated from scripts/tls-ciphersuites.txt: all 10 columns, name byte-for-byte, name-token expectations" % k,
         timeout=900, funcs=_CF) for k in range(8)],
     *[H("c12", "c12_frozen_%d" % k, bounds="rows %d/8 of the frozen snapshot (oracle-data/tls-ciphersuites.frozen.txt): present and unaltered" % k,
         timeout=900, funcs=_CF) for k in range(8)],
-    H("c12", "c12_from_name_neg_a", bounds="same registry name: strict prefix and one-letter case flip find nothing (concrete)", timeout=1500, mem=12, funcs=["TlsCipherSuite::from_name"]),
+    H("c12", "c12_from_name_neg_a", tier="thorough", bounds="same registry name: strict prefix and one-letter case flip find nothing (concrete)", timeout=1500, mem=12, funcs=["TlsCipherSuite::from_name"]),
     H("c12", "c12_from_name_a", bounds="one registry name (seed-selected), concrete: both lookup routes", timeout=1500, mem=12, funcs=["TlsCipherSuite::from_name", "TryFrom<&str>"]),
     H("c12", "c12_from_name_sym_a", tier="thorough", bounds="one registry name with one symbolic ASCII byte at a seed-selected position (352 x string compare)", timeout=3000, mem=20, funcs=["TlsCipherSuite::from_name"]),
     H("c12", "c12_from_name_b", tier="thorough", bounds="second registry name, concrete", timeout=900, mem=12, funcs=["TlsCipherSuite::from_name", "TryFrom<&str>"]),
@@ -487,8 +491,8 @@ reg("C01",
     *_pick("C10", ["c10_record_wiring_small", "c10_hs_clientkeyexchange", "c10_body_server_hello_42", "c10_record_ccs", "c10_record_alert"], c01=True, tier="thorough"),
     *_pick("C13", ["c13_dh_params", "c13_ec_parameters", "c13_ecdh_params", "c13_digitally_signed"], c01=True),
     *_pick("C13", ["c13_ecpoint", "c13_digitally_signed_old", "c13_content_and_signature_dh"], c01=True, tier="thorough"),
-    *_pick("C14", ["c14_sct_list_wiring", "c14_sct_list_one_shape"], c01=True),
-    *_pick("C14", ["c14_sct_single"], c01=True, tier="thorough"),
+    *_pick("C14", ["c14_sct_list_wiring"], c01=True),
+    *_pick("C14", ["c14_sct_single", "c14_sct_list_one_shape"], c01=True, tier="thorough"),
     *_pick("C16", ["c16_lemma_many1_complete"], c01=True),
     *_pick("C16", ["c16_tls_parser_is_parse_tls_plaintext"], c01=True, tier="thorough"),
     )
